@@ -294,6 +294,26 @@ theorem stops_at_first_failure_in_tx (db : Db) (r : Req) (pre post : List Stmt) 
 example : request ⟨[9], none⟩ ⟨true, false, [.ok 1, .empty, .prepFail, .commit, .ok 2, .execFail]⟩ =
     ⟨⟨[9], none⟩, [.e 2, .err], false⟩ := by decide
 
+/-- A statement that makes SQLite roll the transaction back by itself (`INSERT OR ROLLBACK`,
+`RAISE(ROLLBACK)` in a trigger) inside a Transaction request: the clause still holds - the request
+ends there with an error result, nothing is applied, no transaction is left open; the wrapper's own
+ROLLBACK finds no transaction and its error is ignored. Both paths. (Instance of
+`stops_at_first_failure_in_tx`; stated for visibility.) -/
+theorem auto_rollback_inside_transaction (db : Db) (r : Req) (pre post : List Stmt)
+    (hdb : db.open_ = none) (htx : r.tx = true)
+    (hs : r.stmts = pre ++ .autoRollback :: post) (hn : NoCtl pre) (hok : pre.any fails = false) :
+    (execute db r).db = db ∧ (request db r).db = db ∧
+    (execute db r).err = false ∧ (request db r).err = false := by
+  obtain ⟨h1, h2, _, _⟩ := stops_at_first_failure_in_tx db r pre post .autoRollback hdb htx hs hn hok rfl
+  rw [h1, h2]
+  exact ⟨rfl, rfl, rfl, rfl⟩
+
+/-- outside the wrapper: in `[BEGIN; INSERT 1; <auto-rollback>; INSERT 2; COMMIT]` without
+rollback-on-error the explicit transaction is gone after the failure, INSERT 2 auto-commits and the
+COMMIT fails -/
+example : (execute {} ⟨false, false, [.begin, .ok 1, .autoRollback, .ok 2, .commit]⟩) =
+    ⟨⟨[2], none⟩, [.eStale, .e 1, .err, .e 1, .err], false⟩ := by decide
+
 /-! ### what the exclusion `NoCtl` is about (kept visible)
 An explicit COMMIT inside a `Transaction` request ends the wrapper's transaction
 early; later statements autocommit. This is outside the property's quantifier. -/
